@@ -478,19 +478,26 @@ func scanKnown(src string) []string {
 							if depth == 0 {
 								break
 							}
-						} else if isPunct(u, "??") {
-							found["K12"] = true
+						} else if isPunct(u, "??") || depth == 1 && isPunct(u, "?") {
+							found["K12"] = true // a==null?b:a is rewritten to a??b first
 						}
 					}
 				}
 			case "{":
+				for isPunct(at(i+1), ";") {
+					i++ // leading empty statements are removed first
+				}
 				kw := at(i + 1)
 				if kw.k == tIdent && (kw.s == "let" || kw.s == "const" || kw.s == "class") {
 					nx := at(i + 2)
 					if nx.k == tPunct && (nx.s == ":" || nx.s == "," || nx.s == "}" || nx.s == "(") {
 						break
 					}
-					close := matchClose(toks, i)
+					open := i
+					for open > 0 && isPunct(toks[open], ";") {
+						open--
+					}
+					close := matchClose(toks, open)
 					end := close
 					if kw.s == "class" {
 						depth := 0
@@ -636,10 +643,13 @@ func scanKnown(src string) []string {
 			}
 		}
 	}
-	// K38: {a:a} is printed as {a} for every Version
-	for i := 0; i+3 < n; i++ {
-		if (isPunct(toks[i], "{") && !toks[i].block || isPunct(toks[i], ",")) && toks[i+1].k == tIdent && isPunct(toks[i+2], ":") && toks[i+3].k == tIdent && toks[i+3].s == toks[i+1].s && (isPunct(at(i+4), ",") || isPunct(at(i+4), "}")) {
-			found["K38"] = true
+	// K38: {a:a} is printed as {a} for every Version; renaming can also make {a:v} into {a}.
+	// Only relevant for plain ES5 inputs (otherwise the C16 shorthand check is not applied).
+	if len(features(toks)) == 0 {
+		for i := 0; i+3 < n; i++ {
+			if (isPunct(toks[i], "{") && !toks[i].block || isPunct(toks[i], ",")) && toks[i+1].k == tIdent && isPunct(toks[i+2], ":") && isName(toks[i+3]) && (isPunct(at(i+4), ",") || isPunct(at(i+4), "}")) {
+				found["K38"] = true
+			}
 		}
 	}
 	// N02: trailing parameters with a default value that has side effects
